@@ -1159,17 +1159,34 @@ int spawn(thread_fn fn, void* arg)
 {
     Thread* t = tl_self;
     RtScope rs(t);
-    if (g_nthreads >= MAXT) failf("harness", "too many threads");
     sched_point(E_SPAWN, nullptr);
-    Thread* c = &g_thr[g_nthreads];
+    // reuse the slot of a finished and joined thread if there is one
+    Thread* c = nullptr;
+    for (int i = 1; i < g_nthreads; i++)
+        if (g_thr[i].st == T_FINISHED && g_thr[i].joined) {
+            c = &g_thr[i];
+            break;
+        }
+    uint32_t own = 0;
+    if (c) {
+        // decision keys are (thread slot, kind, ordinal): the ordinals keep
+        // counting across incarnations of the slot
+        uint32_t dc[D_NKINDS];
+        memcpy(dc, c->dec_count, sizeof dc);
+        own = c->vc.c[c->id];
+        thread_reset(c);
+        memcpy(c->dec_count, dc, sizeof dc);
+    } else {
+        if (g_nthreads >= MAXT) failf("harness", "too many threads");
+        c = &g_thr[g_nthreads++];
+    }
     c->fn = fn;
     c->arg = arg;
     c->vc = t->vc;
-    c->vc.c[c->id] = 1;
+    c->vc.c[c->id] = own + 1;
     c->st = T_RUNNABLE;
     c->prio = (int)(g_rng_knob.next() % 1000) + 1;
     t->vc.c[t->id]++;
-    g_nthreads++;
     return c->id;
 }
 void join(int tid)
@@ -1186,6 +1203,7 @@ void join(int tid)
         block_here();
     }
     vc_join(t->vc, c->vc);
+    c->joined = true;
 }
 int self()
 {
